@@ -24,6 +24,10 @@ RULE = ('tables from tables.rand_spec (every table replayed through a layout rec
 TRUSTED = ['hand-written model coq/Model/Reorder.v (+ transpose_t of Model/Table.v) tied to biom/table.py by this correspondence run',
            'biom.util.natsort is exercised by the run only: the model receives the order it produced, the oracle recomputes a natural '
            'order independently']
+from . import regen_eq as _regen_eq
+# py2v_eq: regenerate coq/Gen/UpdateIdsGen.v (Table.update_ids) from the source first
+regenerate = _regen_eq.hook(TRUSTED, ['update_ids'], 'coq/Model/Reorder.v (update_ids)', 'coq/Proofs/GenBridgeUpdateIdsProofs.v',
+                            'coq/Gen/UpdPrelude.v')
 ASSUMPTIONS = ['default error profile (duplicate ids raise)',
                'metadata None and {} of an id are the same thing for the oracle (the constructor normalises; the model follows it exactly)']
 
